@@ -1,6 +1,8 @@
 package props
 
 import (
+	"time"
+	"google.golang.org/grpc/status"
 	"strings"
 
 	"context"
@@ -129,6 +131,7 @@ func c12(tier string) []*explore.Scenario {
 		out = append(out, c12SeqT(si, 1, maxLen, 1, true))
 	}
 	out = append(out, c12Interference(1), c12MethodNames(), c12MethodGrammar())
+	out = append(out, c12ExpiredStream(true, 1), c12ExpiredStream(false, 2))
 	for _, mode := range []string{"repeat", "cycle", "cycle-fresh"} {
 		out = append(out, c12Long(mode))
 	}
@@ -824,6 +827,84 @@ func c12Long(mode string) *explore.Scenario {
 			vsched.Quiesce()
 			if !d.ServeDone {
 				vsched.Fail(fam+"|serve-hang", "long conversation (%s): Serve did not return when the transport closed; threads: %s", mode, threadList())
+			}
+		},
+	}
+}
+
+// c12ExpiredStream: a stream whose own grpc-timeout passes while its handler is still running;
+// the handler then returns (with the deadline's status). writerBusy: at that moment the
+// connection's writer is occupied - an earlier reply is still waiting for the peer to read.
+// One stream running out of time is that stream's business: the connection goes on, earlier
+// and later valid requests are answered, Serve keeps running until the transport closes.
+func c12ExpiredStream(writerBusy bool, bound int) *explore.Scenario {
+	fam := "C12/hostile"
+	return &explore.Scenario{
+		Name: fmt.Sprintf("C12/expired-stream/writer-busy=%v", writerBusy), Family: fam, Prop: "C12", Bound: bound, Horizon: time.Hour,
+		Run: func() {
+			w := env.NewWorld()
+			d := env.NewDirect(w, env.DirectOpts{Pipe: env.PipeOpts{Cap: 0}, NoClient: true})
+			reading := make(chan struct{})
+			var replies []*env.Rpc
+			vsched.GoNamed("peer-reader", func() {
+				if writerBusy {
+					<-reading
+				}
+				for {
+					r, err := d.Pipe.A.Read(context.Background())
+					if err != nil {
+						return
+					}
+					replies = append(replies, r)
+				}
+			})
+			rs := w.Rec("s", "Bidi")
+			release := make(chan struct{})
+			w.Handlers["s"] = func(r *env.Rec, ss grpc.ServerStream) error {
+				<-release
+				return status.FromContextError(ss.Context().Err()).Err()
+			}
+			p0 := w.Rec("p0", "Unary")
+			vsched.Settle()
+			vsched.Explore(true)
+			d.Pipe.A.Inject(env.ReqUnary(1, "p0", "x")) // its reply occupies the writer while nobody reads
+			vsched.Quiesce()
+			open := env.ReqOpen(2, env.MBidi, "s")
+			open.Header.Headers = append(open.Header.Headers, &goatorepo.KeyValue{Key: "grpc-timeout", Value: "50m"})
+			d.Pipe.A.Inject(open)
+			vsched.QuiesceTime() // the stream's deadline passes
+			if rs.HCtx == nil || rs.HCtx.Err() == nil {
+				vsched.Fail(fam+"|harness", "the stream's deadline did not pass")
+				return
+			}
+			close(release) // the handler returns: its trailer has to wait for the writer
+			vsched.QuiesceTime()
+			if writerBusy {
+				close(reading)
+			}
+			vsched.Quiesce()
+			p1 := w.Rec("p1", "Unary")
+			d.Pipe.A.Inject(env.ReqUnary(3, "p1", "x"))
+			vsched.Quiesce()
+			got := map[uint64]int{}
+			for _, r := range replies {
+				got[r.GetId()]++
+			}
+			vsched.Obs("writer busy=%v: serveDone=%v p0=%d p1=%d replies by id %v", writerBusy, d.ServeDone, p0.HStarts, p1.HStarts, got)
+			if d.ServeDone {
+				vsched.Fail(fam+"|serve-ended", "a stream ran past its own grpc-timeout and its handler then returned (writer busy=%v): Serve returned (%v)", writerBusy, d.ServeErr)
+			}
+			if p0.HStarts != 1 || got[1] != 1 {
+				vsched.Fail(fam+"|earlier-reply-lost", "the unary request sent before the stream timed out: handler runs %d, replies received %d", p0.HStarts, got[1])
+			}
+			if p1.HStarts != 1 || got[3] != 1 {
+				vsched.Fail(fam+"|probe-unary", "after a stream timed out (writer busy=%v) a valid unary request was not served: handler runs %d, replies received %d", writerBusy, p1.HStarts, got[3])
+			}
+			d.Pipe.A.Break()
+			d.Pipe.B.Break()
+			vsched.Quiesce()
+			if !d.ServeDone {
+				vsched.Fail(fam+"|serve-hang", "Serve did not return when the transport closed; threads: %s", threadList())
 			}
 		},
 	}
